@@ -14,6 +14,7 @@ import (
 	"runtime/debug"
 	"sort"
 	"strconv"
+	"strings"
 	"sync"
 	"time"
 
@@ -40,6 +41,20 @@ func main() {
 		if ndir != *repo {
 			exec.Command("rsync", "-a", "--delete", ndir+"/", mode+"/").Run()
 			os.RemoveAll(ndir)
+		}
+		return
+	}
+	if prop == "ssa" {
+		// vcheck ssa <rel-pkg>:<recv>:<func> : debugging aid, prints the SSA form the rules see
+		parts := strings.SplitN(mode, ":", 3)
+		cfg, _ := core.ConfigByName("amd64")
+		p, err := core.Load(*repo, cfg)
+		if err != nil || len(parts) != 3 {
+			fmt.Println("load:", err)
+			return
+		}
+		if fn := p.Fn(parts[0], parts[1], parts[2]); fn != nil {
+			fn.WriteTo(os.Stdout)
 		}
 		return
 	}
